@@ -46,7 +46,7 @@ func parseOK(src []byte, v px.Ver) (px.Result, string) {
 func TestTriviaVariants(t *testing.T) {
 	harness.Check(t, "variants", 12000, 500000, func(rt *rapid.T) {
 		v := rapid.SampledFrom(px.KeyVersions).Draw(rt, "version")
-		c := progs.Draw(rt, v, progs.Options(v), 1, 4)
+		c := progs.Draw(rt, v, progs.StructuralOptions(v), 1, 4)
 		ref := c.G.Render(c.Root, progs.Policy(rt, phpgen.PolicySpace, nil))
 		refSrc := ref.Src
 		rr, bad := parseOK(refSrc, v)
@@ -120,7 +120,7 @@ func TestLoneCRVariants(t *testing.T) {
 	}
 	harness.Check(t, "lone-cr-variants", 6000, 250000, func(rt *rapid.T) {
 		v := rapid.SampledFrom(px.KeyVersions).Draw(rt, "version")
-		c := progs.Draw(rt, v, progs.Options(v), 1, 4)
+		c := progs.Draw(rt, v, progs.StructuralOptions(v), 1, 4)
 		refSrc := c.G.Render(c.Root, progs.Policy(rt, phpgen.PolicySpace, nil)).Src
 		rr, bad := parseOK(refSrc, v)
 		if bad != "" {
@@ -153,7 +153,7 @@ func TestLoneCRVariants(t *testing.T) {
 func TestLargeVariants(t *testing.T) {
 	harness.Check(t, "large-variants", 80, 4000, func(rt *rapid.T) {
 		v := rapid.SampledFrom([]px.Ver{px.V56, px.V74}).Draw(rt, "version")
-		o := progs.Options(v)
+		o := progs.StructuralOptions(v)
 		c := progs.Draw(rt, v, o, 60, 160)
 		ref := c.G.Render(c.Root, progs.Policy(rt, phpgen.PolicySpace, nil))
 		rr, bad := parseOK(ref.Src, v)
